@@ -137,6 +137,12 @@ def check(ctx):
     from .c19 import check_builder
 
     check_builder(ctx, "C08-c")
+    # ---- C08-e: the integrand 2p/(mu Z) is positive (pseudopressure strictly increasing in pressure): mu > 0 and Z > 0
+    # over the declared range of the gas correlations (sign decisions by interval branch and bound)
+    from .gasdak import isotherm_rules, viscosity_rules
+
+    viscosity_rules(ctx, "C08-e")
+    isotherm_rules(ctx, "C08-e")
     ctx.floor("C08", len(ctx.obligs), 9, "pseudopressure route obligations")
 
 
